@@ -361,13 +361,15 @@ func c18Proto(t *simrt.Tape, s *simrt.Sim, w *world.World, st *Stats, formats ma
 	svc := server.NewAppEncryptionWithFactory(p.Factory)
 	formats["protobuf"] = true
 	payload := w.Payload([]int{2, 0, 3}[t.Choose(3, "payload")])
-	peer := w.Foreign().Write("a", w.Payload(2))
+	// the partition id is the caller's free text, transported verbatim (surrounding blanks included)
+	part0 := []string{"a", "a", "pad  ", " lead", "tenant/7", "ünï-ço∂e"}[t.Choose(6, "proto.partition")]
+	peer := w.Foreign().Write(part0, w.Payload(2))
 	// let time pass so that data-key and intermediate-key creation stamps differ (a swapped or
 	// dropped timestamp in the mapping must not hide behind equal values)
 	w.Advance(time.Duration(37+t.Choose(100, "proto.gap")) * time.Second)
 	ms := &memStream{s: s, recvErrAt: -1, sendErrAt: -1}
 	ms.reqs = []*pb.SessionRequest{
-		{Request: &pb.SessionRequest_GetSession{GetSession: &pb.GetSession{PartitionId: "a"}}},
+		{Request: &pb.SessionRequest_GetSession{GetSession: &pb.GetSession{PartitionId: part0}}},
 		{Request: &pb.SessionRequest_Encrypt{Encrypt: &pb.Encrypt{Data: payload}}},
 	}
 	if peer != nil {
@@ -433,7 +435,7 @@ func c18Proto(t *simrt.Tape, s *simrt.Sim, w *world.World, st *Stats, formats ma
 // c18Parts draws 1-4 partition ids from a pool that includes ids with characters that are special
 // to formatters, encoders and parsers (ids are caller-supplied free text).
 func c18Parts(t *simrt.Tape) []string {
-	pool := []string{"a", "part_with_underscore", "7", "user%40example.com", "100%s", "tenant/7", "spa ce", "ünï-ço∂e", "q\"uote", "b"}
+	pool := []string{"a", "part_with_underscore", "7", "user%40example.com", "100%s", "tenant/7", "spa ce", "ünï-ço∂e", "q\"uote", "b", "pad  ", " lead"}
 	n := 1 + t.Choose(4, "nparts")
 	start := t.Choose(len(pool), "part.start")
 	step := []int{1, 3, 7}[t.Choose(3, "part.step")]
